@@ -119,11 +119,16 @@ pub fn use_message(ctx: &mut Ctx, m: &Message, input: &[u8], tag: &'static str) 
 }
 
 fn parse_modes(ctx: &mut Ctx, mon: &M, b: &[u8], wsh: bool, class: &'static str, ops: &[&'static str]) {
-    let modes: [(bool, u8, &'static str); 4] = [
+    // a random configuration per case: empty / duplicate / over-long ids, counts at the i64 extremes
+    let lvl = crate::filtergen::gen_level(&mut ctx.rng);
+    let rand_cfg = crate::filtergen::gen_filter(&mut ctx.rng, lvl);
+    let rand_filter: ProcessedDltFilterConfig = if ctx.rng.chance(1, 2) { (&rand_cfg).into() } else { rand_cfg.clone().into() };
+    let modes: [(bool, u8, &'static str); 5] = [
         (wsh, 0, "dlt_message"),
         (wsh, 1, "dlt_message+keep_filter"),
         (wsh, 2, "dlt_message+drop_filter"),
         (!wsh, 0, "dlt_message(other storage mode)"),
+        (wsh, 3, "dlt_message+random_filter"),
     ];
     for (mi, (mode_wsh, filt, tag)) in modes.iter().enumerate() {
         ctx.eval();
@@ -131,6 +136,7 @@ fn parse_modes(ctx: &mut Ctx, mon: &M, b: &[u8], wsh: bool, class: &'static str,
         let f = match filt {
             1 => Some(&mon.keep),
             2 => Some(&mon.drop),
+            3 => Some(&rand_filter),
             _ => None,
         };
         let res = guarded(|| dlt_message(b, f, *mode_wsh).map(|(rest, pm)| (super::ptr_off(b, rest), pm)));
@@ -140,6 +146,7 @@ fn parse_modes(ctx: &mut Ctx, mon: &M, b: &[u8], wsh: bool, class: &'static str,
                 .set("input_len", b.len())
                 .set("with_storage_header", *mode_wsh)
                 .set("filter", *filt)
+                .set("random_filter_config", if *filt == 3 { format!("{:?}", rand_cfg) } else { String::new() })
                 .set("class", class)
                 .set("operators", ops.join("+"))
                 .set("got", got)
@@ -154,7 +161,7 @@ fn parse_modes(ctx: &mut Ctx, mon: &M, b: &[u8], wsh: bool, class: &'static str,
         };
         let op0 = ops.first().copied().unwrap_or("-");
         ctx.shape(&(*tag, class, op0, ops.len(), outcome, b.len() > 65536), outcome != "incomplete" || b.len() > 20);
-        ctx.obs_dyn(format!("outcome.{}.{}", if *filt == 0 { "nofilter" } else if *filt == 1 { "keep" } else { "drop" }, outcome));
+        ctx.obs_dyn(format!("outcome.{}.{}", if *filt == 0 { "nofilter" } else if *filt == 1 { "keep" } else if *filt == 2 { "drop" } else { "random" }, outcome));
         match res {
             Err(p) => ctx.panic_violation("parse.no_panic", &p, || detail("panic".into())),
             Ok(Ok((off, pm))) => {
@@ -311,7 +318,7 @@ impl Monitor for M {
 
     fn describe(&self, ctx: &Ctx) -> J {
         super::describe(
-            "80 % message inputs (classes canonical / dialect / structure-aware mutants / truncations / 0xFFFF length-prefix attacks followed by >64 KiB of readable bytes (fixed 10 % share) / arbitrary / header-shaped), each through dlt_message in 4 mode combinations (native storage mode x {no filter, keeping filter, dropping filter}, other storage mode), dlt_consume_msg, skip_storage_header, forward_to_next_storage_header; every returned message is re-serialised, measured, and every argument passed through len/as_bytes<BE|LE>/valid; 10 % construct_arguments with random type lists (incl. fixed-point kinds) over empty/short/long/0xFFFF-prefixed payloads in both byte orders; 10 % dlt_zero_terminated_string with sizes 0..65535 against short and long buffers. A fraction of the workers runs with a log::Log installed that formats every record, so the crate's trace!/warn! argument expressions are evaluated. distinct = (entry point + mode, input class, first operator, operator count, outcome class, >64 KiB); non-trivial = the call got past the first header bytes",
+            "80 % message inputs (classes canonical / dialect / structure-aware mutants / truncations / 0xFFFF length-prefix attacks followed by >64 KiB of readable bytes (fixed 10 % share) / arbitrary / header-shaped), each through dlt_message in 5 mode combinations (native storage mode x {no filter, keeping filter, dropping filter, a random filter configuration per case incl. empty / duplicate / over-long ids and counts at the i64 extremes}, other storage mode), dlt_consume_msg, skip_storage_header, forward_to_next_storage_header; every returned message is re-serialised, measured, and every argument passed through len/as_bytes<BE|LE>/valid; 10 % construct_arguments with random type lists (incl. fixed-point kinds) over empty/short/long/0xFFFF-prefixed payloads in both byte orders; 10 % dlt_zero_terminated_string with sizes 0..65535 against short and long buffers. A fraction of the workers runs with a log::Log installed that formats every record, so the crate's trace!/warn! argument expressions are evaluated. distinct = (entry point + mode, input class, first operator, operator count, outcome class, >64 KiB); non-trivial = the call got past the first header bytes",
             &["only panics raised inside the bracketed crate calls count; a panic located in harness code is a harness error (inconclusive)"],
             &[("use.reserialised", super::scaled(ctx, 50000)), ("use.argument_ok", super::scaled(ctx, 50000)), ("outcome.nofilter.error", super::scaled(ctx, 10000)), ("outcome.drop.filtered", super::scaled(ctx, 10000)), ("cases.input_larger_than_64KiB", super::scaled(ctx, 1000)), ("construct_arguments.ok", 1000), ("construct_arguments.err", 1000)],
         )
